@@ -15,7 +15,8 @@ PROPERTY = "C04"
 TECHNIQUE = "property-based differential: TimeTriggeredPlanValidator vs SequentialPlanValidator on the same instantaneous plan (reference semantics only used to label the odd one out)"
 RULE = (
     "Instantaneous problems of the C01 grammar inside both validators' supported kinds (no timed effects / goals, initial state "
-    "satisfying bounds and invariants by construction); plans of length <= 4: valid ones from reference BFS, random instance "
+    "satisfying bounds and invariants by construction); plans of length <= 4: valid ones from reference BFS, 'boundary' plans whose last step the "
+    "reference rejects for a reason other than a precondition (bound, invariant, conflict, undefined read), random instance "
     "sequences and mutations; each scheduled at strictly increasing rational start times (start at 0, tiny and large gaps).  "
     "Oracle: TT status == VALID iff sequential status == VALID.  Non-trivial = plan where some prefix violates a bound or an "
     "invariant (intermediate or final state), hits a conflict or reads an undefined fluent, or a valid plan of length >= 2; "
@@ -50,6 +51,7 @@ def check(ctx, case):
         return
     s0 = ref.initial_state()
     found = []
+    boundary = []
     frontier = [(s0, [])]
     seen = {freeze(s0)}
     for level in range(3):
@@ -61,6 +63,10 @@ def check(ctx, case):
                 except Abstain:
                     continue
                 if s2 is None:
+                    # plans that fail for a reason other than a precondition (bound, invariant, conflict)
+                    # are exactly where the two validators walk different code: keep some as candidates
+                    if why != "precondition" and len(boundary) < 4:
+                        boundary.append(path + [idx])
                     continue
                 p2 = path + [idx]
                 try:
@@ -73,7 +79,7 @@ def check(ctx, case):
                     seen.add(k)
                     nxt.append((s2, p2))
         frontier = nxt
-    plans = list(found)
+    plans = list(found[:3]) + boundary + found[3:]
     for pl in case["plans"]:
         plans.append([(i * 7 + j) % len(instances) for i, j in pl])
     m = case["mut"]
@@ -91,7 +97,7 @@ def check(ctx, case):
     seqv = SequentialPlanValidator(environment=b.env)
     ttv = TimeTriggeredPlanValidator(environment=b.env)
     done = set()
-    for plan in plans[:10]:
+    for plan in plans[:12]:
         if tuple(plan) in done or not plan:
             continue
         done.add(tuple(plan))
@@ -152,7 +158,7 @@ def shard(ctx):
         ctx.evaluations -= 1
         check(ctx, case)
 
-    ctx.run_hypothesis(cases(), oracle, ctx.scale(1200, 30000))
+    ctx.run_hypothesis(cases(), oracle, ctx.scale(3000, 40000))
 
 
 def replay(ctx, case):
